@@ -148,6 +148,15 @@ Proof.
 Qed.
 Print Assumptions C15_parser_output_well_formed.
 
+(* the try/except handlers the model relies on (ValueError of an encoder, non-integer / misfitting sequence element, misfitting
+   pack value -> AssemblerError at item.line) are read from the SOURCE on every run (Gen/PassTable.v handlers; the model consults
+   them through the conv_ flags): removing one makes the model raise the raw exception too, and this and the no-raw theorem break *)
+Theorem C15_handlers_from_source :
+  conv_instr_ve = true /\ conv_seq_int = true /\ conv_seq_pack = true /\ conv_pack = true /\
+  Gen.Criteria.select_converts_value_error = true.
+Proof. repeat split; reflexivity. Qed.
+Print Assumptions C15_handlers_from_source.
+
 (* non-vacuity: a program with an undefined label fails with the assembler's error at the referring line *)
 Example C15_example :
   let its := [(exL 1, ILabel "a"); (exL 2, IPseudo "j" ["nowhere"] (PErr (PRaw OtherExn)))]%string in
